@@ -3,7 +3,7 @@
    rollover / reopen, and at every operation boundary of any script including merges); what is NOT
    yet proved is listed at the end and is decided by enumeration of crash images cut from recorded
    real traces (`bin/check C03`). *)
-From BC Require Import Store.Engine Store.Log Store.Cons Store.Inv Store.Refine Store.Merge Store.Theorems.
+From BC Require Import Store.Codec Store.CodecProofs Store.Engine Store.Log Store.Cons Store.Inv Store.Refine Store.Merge Store.Theorems.
 Open Scope N_scope.
 
 (* 1. At every operation boundary of every ready script — merges included — the directory can be
@@ -57,10 +57,32 @@ Proof.
 Qed.
 Print Assumptions C03_recovery_only_creates.
 
+(* 5. The byte level.  Decoding inverts encoding whatever follows; the bytes of a file scan to exactly
+      its records at the positions the engine model uses; and a file whose last record is torn at ANY
+      byte scans to the same records: the torn one is reported as end of input, never as an error and
+      never as a shorter record. *)
+Theorem C03_decode_inverts_encode : forall e rest, wf_entry e -> dec_entry (enc_entry e ++ rest) = DOk e rest.
+Proof. exact dec_entry_enc. Qed.
+Print Assumptions C03_decode_inverts_encode.
+
+Theorem C03_bytes_are_records : forall es, Forall wf_entry es -> scan dec_entry (file_bytes es) = Some (layout 0 es).
+Proof. exact scan_file. Qed.
+Print Assumptions C03_bytes_are_records.
+
+Theorem C03_torn_record_invisible : forall es e p q, Forall wf_entry es -> wf_entry e -> q <> [] -> enc_entry e = p ++ q ->
+  scan dec_entry (file_bytes es ++ p) = Some (layout 0 es).
+Proof. exact scan_torn_file. Qed.
+Print Assumptions C03_torn_record_invisible.
+
+Example C03_torn_example :
+  let e1 := mkEntry 7 [107] (Some [1; 2; 3]) in let e2 := mkEntry 8 [107] None in
+  scan dec_entry (enc_entry e1 ++ firstn 17 (enc_entry e2)) = Some [(0, 29, e1)] /\
+  scan dec_entry (enc_entry e1 ++ enc_entry e2) = Some [(0, 29, e1); (29, 18, e2)].
+Proof. split; vm_compute; reflexivity. Qed.
+
 (* Not yet proved in Coq (C03_crash_safe in DESIGN.md section 8):
      - crash points strictly inside a merge pass (between its copies, its fsyncs and its unlinks),
-     - the byte level: a cut inside the last write leaves a strict prefix of a record, which the scan
-       reports as end of file (the codec prefix lemma),
+     - the composition of 2 and 5 into one statement over byte-level file-system states,
      - histories with several crashes.
    `bin/check C03` covers them by opening, with the real code, every image cut from the recorded real
    trace of every generated workload at every call boundary and at byte cuts inside writes. *)
